@@ -60,6 +60,9 @@ var pool = []string{
 	// distinct one-entry dictionaries whose keys are the names an implementation
 	// might use as probes ("0", "1", …): equal length, different identity
 	"<< /a 1 >>", "<< /0 2 >>", "<< /1 2 >>",
+	// a literal that names a key twice (the last value wins), and literals long
+	// enough for an implementation to treat them differently from short ones
+	"<< /a 1 /b 2 /a 3 >>", "[ 70 {7} repeat ]", "<< 0 1 69 { dup } for >>",
 	// procedures, mark
 	"/P load", "/Q load", "{}", "mark",
 	// the interpreter's own shared-looking objects as operands (they are per
